@@ -503,6 +503,7 @@ func r44TileAddressingInverse(c *core.Ctx) {
 		c.Check(R, "bbox-y-spans-matrix-height/"+arm, bb.Decl.Pos(), okBY, "topRight.y - bottomLeft.y == gridHeight, anchored at the origin on the side the corner of origin names", "the bounding box's y range is not gridHeight measured from the point of origin for cornerOfOrigin "+arm)
 	}
 	r44OutsideMapsToNoTile(c, fn)
+	r44RoundingOnlyOnResults(c, []*core.Func{fn, tn, bb, ms})
 	c.Floor(R, 7)
 }
 
@@ -663,4 +664,87 @@ func r44OutsideMapsToNoTile(c *core.Ctx, f *core.Func) {
 		}
 		c.Check(R, construct, newTile.Pos(), why == "", "a negative or >= tm."+want+" "+ax+" index never yields a tile", "points outside the matrix extent can map to a tile: "+why)
 	}
+}
+
+// r44RoundingOnlyOnResults: the 9-decimal rounding of the addressing functions is applied to final coordinates and
+// sizes only.  A rounded value that is truncated to a tile index or compared (FromNative) moves tile borders by the
+// rounding error; a rounded value that is multiplied (a rounded tile size times a tile count) amplifies it.
+func r44RoundingOnlyOnResults(c *core.Ctx, fs []*core.Func) {
+	const R = "R44"
+	seen := map[*ssa.Function]bool{}
+	var fns []*ssa.Function
+	for _, f := range fs {
+		if f.SSA == nil {
+			continue
+		}
+		for _, x := range core.AllSSAFuncs(f.SSA) {
+			if !seen[x] {
+				seen[x] = true
+				fns = append(fns, x)
+			}
+		}
+		// module helpers they call
+		for _, b := range f.SSA.Blocks {
+			for _, in := range b.Instrs {
+				if ci, ok := in.(ssa.CallInstruction); ok {
+					if g := ci.Common().StaticCallee(); g != nil && !seen[g] && len(g.Blocks) > 0 && core.ShortPkg(core.FuncPkgPath(g)) == "tms20" && g.Name() != "roundFloat" && g.Name() != "ToXYPoint" {
+						seen[g] = true
+						fns = append(fns, g)
+					}
+				}
+			}
+		}
+	}
+	isRound := func(v ssa.Value) bool {
+		call, ok := v.(*ssa.Call)
+		if !ok {
+			return false
+		}
+		id := core.StaticCalleeID(call)
+		return id == core.ModPath+"/tms20.roundFloat" || id == "math.Round"
+	}
+	n := 0
+	bad := ""
+	for _, fn := range fns {
+		if fn.Name() == "roundFloat" {
+			continue
+		}
+		for _, b := range fn.Blocks {
+			for _, in := range b.Instrs {
+				v, ok := in.(ssa.Value)
+				if !ok || !isRound(v) {
+					continue
+				}
+				n++
+				work := []ssa.Value{v}
+				visited := map[ssa.Value]bool{}
+				for len(work) > 0 {
+					x := work[len(work)-1]
+					work = work[:len(work)-1]
+					if visited[x] || x.Referrers() == nil {
+						continue
+					}
+					visited[x] = true
+					for _, r := range *x.Referrers() {
+						switch y := r.(type) {
+						case *ssa.Phi:
+							work = append(work, y)
+						case *ssa.Convert:
+							if bt, ok := y.Type().Underlying().(*types.Basic); ok && bt.Info()&types.IsInteger != 0 {
+								bad += fmt.Sprintf("%s: a rounded value is truncated to an integer @%s; ", fn.Name(), c.P.Pos(y.Pos()))
+							}
+						case *ssa.BinOp:
+							switch y.Op {
+							case token.MUL, token.QUO:
+								bad += fmt.Sprintf("%s: a rounded value is multiplied or divided @%s; ", fn.Name(), c.P.Pos(y.Pos()))
+							case token.LSS, token.LEQ, token.GTR, token.GEQ:
+								bad += fmt.Sprintf("%s: a rounded value decides a comparison @%s; ", fn.Name(), c.P.Pos(y.Pos()))
+							}
+						}
+					}
+				}
+			}
+		}
+	}
+	c.Check(R, "rounding-only-on-results/tms20", fs[0].Decl.Pos(), bad == "" && n >= 5, fmt.Sprintf("%d rounding sites in the addressing functions, each applied to a final coordinate or size", n), "rounding is applied to an intermediate value: "+bad)
 }
